@@ -52,6 +52,9 @@ type gen struct {
 	outTypes []Ty
 	// pipelines that contain a map call, directly or through sub-pipelines
 	hasMap map[string]bool
+	// mapPipes[p]: the pipelines, reachable from pipeline p (p included), which
+	// directly contain a map call
+	mapPipes map[string]map[string]bool
 	disabledCalls map[string]bool
 	pfStage *StageDef
 }
@@ -65,7 +68,7 @@ func (g *gen) pick(n int) int { return g.t.Draw(n) }
 
 // Generate builds a random program.
 func Generate(t *Tape, cfg *GenCfg) *Prog {
-	g := &gen{t: t, cfg: cfg, p: &Prog{}, hasMap: map[string]bool{}}
+	g := &gen{t: t, cfg: cfg, p: &Prog{}, hasMap: map[string]bool{}, mapPipes: map[string]map[string]bool{}}
 	g.prim = []string{"int", "string", "float", "bool"}
 	if cfg.Files {
 		g.p.FileTypes = []string{"txt", "json"}
@@ -467,6 +470,8 @@ func (g *gen) genPipeline(last bool) {
 	}
 	disabledCalls := map[string]bool{}
 	g.disabledCalls = disabledCalls
+	taint := map[string]map[string]bool{}
+	myMapPipes := map[string]bool{}
 	havePreflight := false
 	for i := 0; i < ncalls; i++ {
 		// callee: a stage, or an earlier pipeline
@@ -486,6 +491,22 @@ func (g *gen) genPipeline(last bool) {
 		}
 		used[callee]++
 		xenv := g.expand(env)
+		if mp := g.mapPipes[callee]; len(mp) > 0 {
+			// Martian identifies the forks of a map call by its call statement,
+			// which two instances of the same pipeline share: an instance whose
+			// arguments come from the forked outputs of another instance fails
+			// with "inconsistent index" (observed; DESIGN.md section 14, D5).
+			// Not generated: no argument of this call refers to a sibling call
+			// that shares a map-calling pipeline with the callee.
+			var f []avail
+			for _, a := range xenv {
+				if a.e.Kind == ERef && !a.e.Self && intersects(taint[a.e.Call], mp) {
+					continue
+				}
+				f = append(f, a)
+			}
+			xenv = f
+		}
 		var mapKind byte
 		if g.cfg.MapCalls && g.pick(3) == 0 && (g.cfg.NestedMaps || !g.hasMap[callee]) {
 			// try to make it a map call: pick parameters to split
@@ -581,6 +602,36 @@ func (g *gen) genPipeline(last bool) {
 		if c.Mapped || g.hasMap[callee] {
 			g.hasMap[pl.Name] = true
 		}
+		if c.Mapped {
+			myMapPipes[pl.Name] = true
+		}
+		if !isStage {
+			// values can pass through a pipeline call unchanged; a stage cuts
+			// the chain
+			tc := map[string]bool{}
+			for k := range g.mapPipes[callee] {
+				tc[k] = true
+				myMapPipes[k] = true
+			}
+			var walkT func(e *Expr)
+			walkT = func(e *Expr) {
+				if e == nil {
+					return
+				}
+				if e.Kind == ERef && !e.Self {
+					for k := range taint[e.Call] {
+						tc[k] = true
+					}
+				}
+				for _, x := range e.Elems {
+					walkT(x)
+				}
+			}
+			for _, b := range c.Binds {
+				walkT(b.E)
+			}
+			taint[c.Id] = tc
+		}
 		if c.Disabled != nil {
 			disabledCalls[c.Id] = true
 		}
@@ -656,7 +707,17 @@ func (g *gen) genPipeline(last bool) {
 		}
 	}
 	pl.Ins = kept
+	g.mapPipes[pl.Name] = myMapPipes
 	g.p.Pipelines = append(g.p.Pipelines, pl)
+}
+
+func intersects(a, b map[string]bool) bool {
+	for k := range a {
+		if b[k] {
+			return true
+		}
+	}
+	return false
 }
 
 // exprDepends reports whether e references one of the pipeline inputs in ins or
